@@ -3,6 +3,7 @@ use vstd::prelude::*;
 use core::cmp::Ordering;
 use core::convert::Infallible;
 use std::collections::BTreeSet;
+use core::iter::FromIterator;
 use vstd::std_specs::iter::IteratorSpec;
 use vstd::std_specs::cmp::{PartialEqSpec, PartialOrdSpec, OrdSpec};
 use crate::spec::*;
@@ -68,6 +69,32 @@ impl<T: Ord + Clone> GList<T> {
     //@ ensures r.ls() == Set::<Identifier<T>>::empty(),
     {
         Self::default()
+    }
+//@end
+
+//@extract fn src/glist.rs "GList" read
+    pub fn read<'a, C: FromIterator<&'a T>>(&'a self) -> /*@ (r: @*/ C /*@ ) @*/
+    //@ requires glist_ok::<T>(), self.wf(),
+    //@ ensures
+    //@     // C12/C13 observation: the caller's collector is handed exactly the elements, in increasing identifier order
+    //@     exists|s: Seq<Identifier<T>>| #[trigger] id_order(s, self.ls()) && r == from_iter_spec::<C, &T>(s.map_values(|k: Identifier<T>| &k@.last().1)),
+    {
+        //@ let ghost g = |k: &Identifier<T>| &k@.last().1;
+        /*@ let it0 = @*/ self.list.iter() /*@ ; let ghost ks = it0.remaining(); proof { lemma_set_keys_order(ks, self.list@); assert forall|i: int| 0 <= i < ks.len() implies (#[trigger] ks[i])@.len() > 0 by { assert(ks.unref()[i] == *ks[i]); assert(ks.unref().to_set().contains(ks.unref()[i])); assert(self.ls().contains(ks.unref()[i])); } } let r0 = shim_iter_map_collect(it0, Ghost(g), @*/ /*@<*/ .map( /*@>*/ |id /*@ : &Identifier<T> @*/ | /*@ -> (o: &T) requires id@.len() > 0 ensures o == g(id) { @*/ id.value() /*@ } @*/ /*@<*/ ).collect() /*@>*/ /*@ ); proof { let s = ks.unref(); assert(ks.map_values(g) =~= s.map_values(|k: Identifier<T>| &k@.last().1)); assert(id_order(s, self.ls())); assert(r0 == from_iter_spec::<C, &T>(s.map_values(|k: Identifier<T>| &k@.last().1))); } r0 @*/
+    }
+//@end
+
+//@extract fn src/glist.rs "GList" read_into
+    pub fn read_into<C: FromIterator<T>>(self) -> /*@ (r: @*/ C /*@ ) @*/
+    //@ requires glist_ok::<T>(), self.wf(),
+    //@ ensures
+    //@     // C12/C13 observation: as `read`, handing over the owned elements
+    //@     exists|s: Seq<Identifier<T>>| #[trigger] id_order(s, self.ls()) && r == from_iter_spec::<C, T>(s.map_values(|k: Identifier<T>| k@.last().1)),
+    {
+        //@ let ghost g = |k: Identifier<T>| k@.last().1;
+        //@ let ghost ls0 = self.list@;
+        //@ proof { assert forall|x: Identifier<T>| self.list@.contains(x) implies x@.len() > 0 by { assert(self.ls().contains(x)); } }
+        /*@ let r0 = shim_btreeset_into_map_collect( @*/ self.list /*@<*/ .into_iter().map( /*@>*/ /*@ , Ghost(g), @*/ |id /*@ : Identifier<T> @*/ | /*@ -> (o: T) requires id@.len() > 0 ensures o == g(id) { @*/ id.into_value() /*@ } @*/ /*@<*/ ).collect() /*@>*/ /*@ ); proof { let ks = choose|ks: Seq<Identifier<T>>| #[trigger] vstd::std_specs::btree::increasing_seq(ks) && ks.to_set() == ls0 && ks.no_duplicates() && r0 == from_iter_spec::<C, T>(ks.map_values(g)); lemma_set_keys_order_owned(ks, ls0); assert(id_order(ks, self.ls())); } r0 @*/
     }
 //@end
 
@@ -254,6 +281,15 @@ impl<T: Ord> CvRDT for GList<T> {
 }
 
 /// the iter() iterator of the BTreeSet enumerates the identifier order
+pub proof fn lemma_set_keys_order_owned<T: Ord>(ks: Seq<Identifier<T>>, dom: Set<Identifier<T>>)
+    requires vstd::laws_cmp::obeys_cmp::<Identifier<T>>(), ks.to_set() == dom, ks.no_duplicates(), vstd::std_specs::btree::increasing_seq(ks),
+    ensures id_order(ks, dom),
+{
+    vstd::std_specs::btree::axiom_increasing_seq_meaning(ks);
+    assert forall|i: int, j: int| 0 <= i < j < ks.len() implies id_cmp((#[trigger] ks[i])@, (#[trigger] ks[j])@) == Ordering::Less by {
+        assert(<Identifier<T> as vstd::std_specs::cmp::OrdSpec>::cmp_spec(&ks[i], &ks[j]) is Less);
+    }
+}
 pub proof fn lemma_set_keys_order<T: Ord>(ks: Seq<&Identifier<T>>, dom: Set<Identifier<T>>)
     requires vstd::laws_cmp::obeys_cmp::<Identifier<T>>(), ks.unref().to_set() == dom, ks.no_duplicates(), vstd::std_specs::btree::increasing_seq(ks),
     ensures id_order(ks.unref(), dom), ks.unref().len() == ks.len(), forall|i: int| 0 <= i < ks.len() ==> #[trigger] ks.unref()[i] == *ks[i],
